@@ -16,7 +16,7 @@ func init() {
 		ID:  "C16",
 		Run: runC16,
 		Decided: "the crawl snapshot (trie, key map, address map, crawl time) is accessed only under its locks, replaced only with all three write locks held together and taken in the readers' order, GetClosestPeers holds all three read locks for its whole body, and each crawl starts from an emptied result map (R1); no integer division, modulo or loop stride in fullrt/crawler has an unguarded non-constant divisor/stride (R2); function-typed fields of the hand-built DHT config are called only behind a nil test or when set in the literal (R3); " +
-			"the crawl work list: every append is paired, in both orders, with the insertion into the seen set behind a not-seen test; every job yields one result and every result one outcome and one decrement (R4); diversity filter: counts live across result pages, a peer is appended after its address loop, is not counted against itself, results are returned in ClosestN order at bucketSize (R5); empty inputs return early, the crawler's prefix loop stays within kbucket's bound (R6); every field of the fullrt option struct is read by the constructor (R7). Added after the seeded rounds: batches of GetClosestPeers do not overlap, and config.ipDiversityFilterLimit is assigned only by its option (R5).",
+			"the crawl work list: every append is paired, in both orders, with the insertion into the seen set behind a not-seen test; every job yields one result and every result one outcome and one decrement (R4); diversity filter: counts live across result pages, a peer is appended after its address loop, is not counted against itself, results are returned in ClosestN order at bucketSize (R5); empty inputs return early, the crawler's prefix loop stays within kbucket's bound (R6); every field of the fullrt option struct is read by the constructor (R7). Added after the seeded rounds: batches of GetClosestPeers do not overlap, and config.ipDiversityFilterLimit is assigned only by its option (R5). Round 4: every installed view is an object allocated after the crawl it describes (R1).",
 		NotDecided: "that go-libp2p-xor ClosestN returns nearest-first; equality with a brute-force nearest computation; what a crawl finds.",
 	})
 }
